@@ -28,6 +28,11 @@ func (p *prioItem) SortID() int  { return p.id }
 func (p *prioItem) Order() int   { return p.o }
 func (p *prioItem) Priority()    {}
 
+type markItem struct{ id int }
+
+func (p *markItem) SortID() int { return p.id }
+func (p *markItem) Priority()   {}
+
 type sortCase struct {
 	Items [][3]int `json:"items"` // id, class (0 unordered, 1 ordered, 2 priority), order — in arrival order
 }
@@ -45,6 +50,8 @@ func judgeSortCase(c *sortCase) []model.Violation {
 			in = append(in, &ordItem{it[0], it[2]})
 		case 2:
 			in = append(in, &prioItem{it[0], it[2]})
+		case 3:
+			in = append(in, &markItem{it[0]})
 		}
 	}
 	var out []sortItem
@@ -65,7 +72,7 @@ func judgeSortCase(c *sortCase) []model.Violation {
 	var seq []string
 	for _, x := range out {
 		seen[x.SortID()]++
-		seq = append(seq, fmt.Sprintf("%d[%s %d]", x.SortID(), []string{"unordered", "ordered", "priority"}[cls[x.SortID()]], ord[x.SortID()]))
+		seq = append(seq, fmt.Sprintf("%d[%s %d]", x.SortID(), []string{"unordered", "ordered", "priority", "priority-marker-only"}[cls[x.SortID()]], ord[x.SortID()]))
 	}
 	if len(out) != len(in) {
 		vs = append(vs, model.Violation{Property: "C12", Oracle: "sorter-not-a-permutation", Detail: fmt.Sprintf("%d participants in, %d out: %v", len(in), len(out), seq)})
@@ -76,14 +83,14 @@ func judgeSortCase(c *sortCase) []model.Violation {
 			break
 		}
 	}
-	rank := map[int]int{2: 0, 1: 1, 0: 2}
+	rank := map[int]int{2: 0, 1: 1, 0: 2, 3: 2}
 	for i := 1; i < len(out); i++ {
 		a, b := out[i-1].SortID(), out[i].SortID()
 		if rank[cls[a]] > rank[cls[b]] {
 			vs = append(vs, model.Violation{Property: "C12", Oracle: "sorter-class-order", Detail: fmt.Sprintf("participant %d precedes %d against the class order: %v", a, b, seq)})
 			break
 		}
-		if cls[a] == cls[b] && cls[a] != 0 && ord[a] > ord[b] {
+		if cls[a] == cls[b] && (cls[a] == 1 || cls[a] == 2) && ord[a] > ord[b] {
 			vs = append(vs, model.Violation{Property: "C12", Oracle: "sorter-order-decreases", Detail: fmt.Sprintf("Order decreases from %d (participant %d) to %d (participant %d): %v", ord[a], a, ord[b], b, seq)})
 			break
 		}
@@ -107,7 +114,11 @@ func sorterBatch(job *Job, n int, acc *statAcc, res *Result) {
 			if r.IntN(3) == 0 {
 				o = r.IntN(7) - 3
 			}
-			c.Items = append(c.Items, [3]int{j, r.IntN(3), o})
+			cl := r.IntN(3)
+			if r.IntN(8) == 0 {
+				cl = 3
+			}
+			c.Items = append(c.Items, [3]int{j, cl, o})
 		}
 		r.Shuffle(len(c.Items), func(a, b int) { c.Items[a], c.Items[b] = c.Items[b], c.Items[a] })
 		acc.Runs++
